@@ -1,5 +1,6 @@
 import Driver.Slots
 import Driver.Sched
+import Driver.Report
 /-!
 Line-protocol driver: one request per stdin line, one answer per stdout line.
 Unknown or ill-formed requests are answered `bad-op` (never defaulted).
@@ -8,7 +9,8 @@ Each `Driver/X.lean` contributes `(commands, handler)`; `dispatch` picks by the 
 open SPD
 
 def handlers : List (List String × (List String → String)) := [
-  (slotsCmds, handleSlots)
+  (slotsCmds, handleSlots),
+  (reportCmds, handleReports)
 ]
 
 def dispatch (toks : List String) : String :=
